@@ -9,19 +9,19 @@ EVENTS = 'onl/sim/events.py'
 MUTANTS = [
     # ---- C01
     dict(prop='C01', name='heap-key-without-insertion-counter', edits=[(CORE,
-         "(self._now + delay, priority, next(self._eid), event))",
-         "(self._now + delay, priority, -next(self._eid), event))")]),
+         "(at, priority, next(self._eid), event))",
+         "(at, priority, -next(self._eid), event))")]),
     dict(prop='C01', name='heap-key-without-priority', edits=[(CORE,
-         "(self._now + delay, priority, next(self._eid), event))",
-         "(self._now + delay, 1, next(self._eid), event))")]),
+         "(at, priority, next(self._eid), event))",
+         "(at, 1, next(self._eid), event))")]),
     dict(prop='C01', name='timeout-scheduled-urgent', edits=[(EVENTS,
          "        env.schedule(self, NORMAL, delay)", "        env.schedule(self, URGENT, delay)")]),
     dict(prop='C01', name='interruption-scheduled-normal', edits=[(EVENTS,
          "        self.process = process\n        self.env.schedule(self, URGENT)",
          "        self.process = process\n        self.env.schedule(self, NORMAL)")]),
     dict(prop='C01', name='delay-plus-epsilon-for-floats', edits=[(CORE,
-         "(self._now + delay, priority, next(self._eid), event))",
-         "(self._now + delay * (1 + 2.0 ** -52 * (delay > 1.2)), priority, next(self._eid), event))")]),
+         "        at = self._now + delay\n",
+         "        at = self._now + delay * (1 + 2.0 ** -52 * (delay > 1.2))\n")]),
     dict(prop='C01', name='tiny-negative-delay-accepted', edits=[(EVENTS,
          "        if delay < 0:\n            raise ValueError(f'Negative delay {delay}')",
          "        if delay <= -1e-9:\n            raise ValueError(f'Negative delay {delay}')")]),
